@@ -18,6 +18,9 @@ A_BMP = [0x3a3, 0x3c3, 0x3c2, 0x130, 0x2028, 0x3000, 0xfeff, 0xfffd, 0x4e2d, 0x3
          0x7ff, 0x800, 0xd7ff, 0xe000, 0xfffe, 0xffff]
 A_ASTRAL = [(0xd83d, 0xde00), (0xd801, 0xdc00), (0xd801, 0xdc28), (0xdbff, 0xdfff), (0xd800, 0xdc00)]
 A_LONE = [0xd800, 0xdbff, 0xdc00, 0xdfff, 0xd83d, 0xde00]
+# adjacency patterns of surrogates (H = high, L = low): H H L, H L L, L H L, H H, L L, L H (reversed pair), H L H
+A_ADJ = [(0xd800, 0xd83d, 0xde00), (0xd83d, 0xde00, 0xdc00), (0xdc00, 0xd83d, 0xde00), (0xd800, 0xdbff), (0xdc00, 0xdfff),
+         (0xde00, 0xd83d), (0xd83d, 0xde00, 0xd83d), (0xdbff, 0xdbff, 0xdfff), (0xd800, 0xdc00, 0xdc00)]
 # code points at the edges of every encoding class (1/2/3/4-byte UTF-8, BMP/astral, surrogate block, specials):
 # U+007F/0080, U+07FF/0800, U+D7FF, U+E000, U+FFFD, U+FFFE, U+FFFF, U+10000, U+10FFFF
 A_BOUNDARY = [0x7f, 0x80, 0x7ff, 0x800, 0xd7ff, 0xe000, 0xfffd, 0xfffe, 0xffff, (0xd800, 0xdc00), (0xdbff, 0xdfff)]
@@ -121,6 +124,8 @@ class Gen:
             p += r.sample(A_BOUNDARY, r.randint(1, 2))
         if r.random() < 0.35:
             p += r.sample(A_LONE, r.randint(1, 2))
+        if r.random() < 0.35:
+            p += r.sample(A_ADJ, r.randint(1, 2))
         return p
 
     def units(self, pal, maxlen=5, long=False):
@@ -136,6 +141,8 @@ class Gen:
             if special:
                 e = r.choice(special)
                 out = [e] + out + [e]
+        if r.random() < 0.15 and any((isinstance(c, tuple) and c in A_ADJ) or c in A_LONE for c in pal):
+            out = [r.choice([0xdc00, 0xdfff, 0xde00])] + out + [r.choice([0xd800, 0xdbff, 0xd83d])]   # L at start, H at end
         return out
 
     def leaf_for(self, u, avoid=None):
@@ -282,7 +289,7 @@ def gen_units(r):
         if k < 0.35:
             out.append(r.choice(A_ASCII))
         else:
-            c = r.choice(A_ASCII + A_ASCII + A_LATIN + A_BMP + A_ASTRAL + A_LONE + A_BOUNDARY)
+            c = r.choice(A_ASCII + A_ASCII + A_LATIN + A_BMP + A_ASTRAL + A_LONE + A_BOUNDARY + A_ADJ)
             out += list(c) if isinstance(c, tuple) else [c]
     return out
 
@@ -437,6 +444,7 @@ class Check:
         self.opmix = {}
         self.firsts = {}
         self.kinds = {}
+        self.xcache = {}
         self.blamed = {}
         self.undiagnosed = {}
         self.bad_trees = set()
@@ -580,6 +588,21 @@ class Check:
         if d.get("nf") != "11":
             fails.append(("nf-violation:%s" % (d["t1"] if d.get("nf", "00")[0] == "0" else d["t2"]),
                           "result not in normal form (nf=%s tags %s/%s)" % (d.get("nf"), d["t1"], d["t2"])))
+        for which in ("1", "2"):
+            hu, q, cp = d["u" + which], d.get("q" + which), d.get("cp" + which)
+            if hu not in self.xcache:
+                self.spec_obs([hu])
+            x = self.xcache.get(hu)
+            if x is None or q is None or cp is None:
+                continue
+            if x.get("cp", "") != x.get("it", ""):
+                fails.append(("model-decoder-differs-from-spec", "Lean lenientDecode != codePoints on %s" % hu))
+            if q != x["q"]:
+                fails.append(("json-quote-differs-from-spec", "JSON.stringify of the string with units %s gives units %s, QuoteJSONString gives %s" % (hu, q, x["q"])))
+            want = x.get("cp", "") or "-"
+            if cp != want:
+                route = cp.split(":")[1] if cp.startswith("MISMATCH:") else "iteration"
+                fails.append(("code-points-differ-from-spec:" + route, "code points of the string with units %s observed as %s, specification %s" % (hu, cp, want)))
         if opaque is None:
             for which, mu, hu in (("1", mu1, d["u1"]), ("2", mu2, d["u2"])):
                 if mu is not None and mu != hu:
@@ -623,12 +646,28 @@ class Check:
                     break
         return fails
 
+    def spec_obs(self, unit_hexes):
+        """SPEC observations (QuoteJSONString, code points, decoder model) of unit lists, from the Lean driver."""
+        todo = [h for h in set(unit_hexes) if h not in self.xcache]
+        if todo and self.model_ok:
+            res = run_sharded(self.ctx, self.m, [["X " + (h or "-")] for h in todo])
+            for h, r in zip(todo, res):
+                d = {}
+                for kv in (r[0].split() if r else []):
+                    k, _, v = kv.partition("=")
+                    d[k] = v
+                if "q" in d:
+                    self.xcache[h] = d
+        return self.xcache
+
     def run_pairs(self, items, origin):
         """items: dicts {line, t1, t2, mu1, mu2, same, opaque, in_units}"""
         ctx = self.ctx
         with open(os.path.join(BUILD, "c06_pairs_%s.txt" % origin), "w") as f:
             f.write("\n".join(it["line"] for it in items) + "\n")
         res = run_sharded(ctx, self.h, [[it["line"]] for it in items])
+        pre = [parse_pair(r[0]) for r in res if r]
+        self.spec_obs([d[k] for d in pre if d for k in ("u1", "u2")])
         for it, r in zip(items, res):
             ctx.count(1)
             out = r[0] if r else "ERR no answer"
